@@ -1,5 +1,5 @@
 \* exhaustive: all cells within 7 rings x both orientations x k in -7..7 and +-{36, 601, 100003}; act is part of the state
-CONSTANTS N = 7  K = 7  BigK = {36, 601, 100003}  MaxLevel = 2
+CONSTANTS N = 7  K = 7  BigK = {36, 601, 100003} AllKz = FALSE  AllSp = FALSE  MaxLevel = 2
 INIT Init
 NEXT NextB
 CONSTRAINT Bound
@@ -18,4 +18,5 @@ INVARIANT RotateIsGeometric
 INVARIANT RotateAdditive
 INVARIANT RotateSixIsIdentity
 INVARIANT RotatePreservesRing
+INVARIANT RotateKeepsAxial
 CHECK_DEADLOCK FALSE
